@@ -257,7 +257,20 @@ func (matrix *DenseInt8Matrix) Tip() {
   matrix.rowMax, matrix.colMax = matrix.colMax, matrix.rowMax
 }
 func (matrix *DenseInt8Matrix) AsVector() Vector {
-  return DenseInt8Vector(matrix.values)
+  if matrix.transposed || matrix.rowMax > matrix.rows || matrix.colMax > matrix.cols {
+    // a view does not own a contiguous row-major block: return its
+    // elements (a copy)
+    n, m := matrix.Dims()
+    v := make(DenseInt8Vector, n*m)
+    for i := 0; i < n; i++ {
+      for j := 0; j < m; j++ {
+        v[i*m + j] = matrix.values[matrix.index(i, j)]
+      }
+    }
+    return v
+  } else {
+    return DenseInt8Vector(matrix.values)
+  }
 }
 func (matrix *DenseInt8Matrix) storageLocation() uintptr {
   return uintptr(unsafe.Pointer(&matrix.values[0]))
@@ -349,7 +362,20 @@ func (matrix *DenseInt8Matrix) IsSymmetric(epsilon float64) bool {
   return true
 }
 func (matrix *DenseInt8Matrix) AsConstVector() ConstVector {
-  return DenseInt8Vector(matrix.values)
+  if matrix.transposed || matrix.rowMax > matrix.rows || matrix.colMax > matrix.cols {
+    // a view does not own a contiguous row-major block: return its
+    // elements (a copy)
+    n, m := matrix.Dims()
+    v := make(DenseInt8Vector, n*m)
+    for i := 0; i < n; i++ {
+      for j := 0; j < m; j++ {
+        v[i*m + j] = matrix.values[matrix.index(i, j)]
+      }
+    }
+    return v
+  } else {
+    return DenseInt8Vector(matrix.values)
+  }
 }
 /* implement ScalarContainer
  * -------------------------------------------------------------------------- */
